@@ -377,6 +377,13 @@ class SigmaDetection(ParentChainMixin):
                 "Can't convert detection into plain value because it contains detections and detection items",
                 source=self.source,
             )
+        if self.item_linking is not (
+            ConditionAND if SigmaDetectionItem in self_detection_item_types else ConditionOR
+        ):  # a map is always AND-linked and a list OR-linked
+            raise sigma_exceptions.SigmaValueError(
+                "Can't convert detection into plain value because the linking of its items can't be expressed",
+                source=self.source,
+            )
 
         detection_items = [  # first convert all detection items into a Python representation.
             detection_item.to_plain() for detection_item in self.detection_items
